@@ -14,6 +14,7 @@ import DlmsVerif.Run.Axdr
 import DlmsVerif.Run.Parsers
 import DlmsVerif.Run.Wrapper
 import DlmsVerif.Run.Xdlms
+import DlmsVerif.Run.Acse
 
 structure DriverState where
   link : Run.Link.S := {}
@@ -23,6 +24,7 @@ def step (st : DriverState) (line : String) : DriverState × String :=
   match (line.trimAscii.toString.splitOn " ").filter (· ≠ "") with
   | "crc" :: rest => (st, Run.Crc.handle rest)
   | "fld" :: rest => (st, Run.Fields.handle rest)
+  | "acse" :: rest => (st, Run.Acse.handle rest)
   | "xdlms" :: rest => (st, Run.Xdlms.handle rest)
   | "wrp" :: rest => (st, Run.Wrapper.handle rest)
   | "pars" :: rest => (st, Run.Parsers.handle rest)
